@@ -31,7 +31,7 @@ def _axis():
     ax += [["Line", {}], ["Quad", {}], ["ConstantQuad", {}], ["QuadraticQuad", {}], ["BiQuadraticQuad", {}]]
     ax += [["Hexahedron", {}], ["ConstantHexahedron", {}], ["QuadraticHexahedron", {}], ["TriQuadraticHexahedron", {}]]
     ax += [["Triangle", {}], ["QuadraticTriangle", {}], ["Tetra", {}], ["QuadraticTetra", {}], ["Vertex", {}]]
-    for m in (1.0, 0.1, 0.7):
+    for m in (1.0, 0.1, 0.7, 0.0):  # (0.0: the bubble switched off - function, gradient and hessian of it all vanish)
         ax += [["TriangleMINI", {"bubble_multiplier": m}], ["TetraMINI", {"bubble_multiplier": m}]]
     for o in range(1, 7):
         for d in (1, 2, 3):
